@@ -552,6 +552,7 @@ fn verify(dir: &std::path::Path, t: &Transcript, plan: &(String, u64, bool), o: 
 impl Property for C13 {
     type Case = Case;
     const ID: &'static str = "C13";
+    const CASE_TIMEOUT_S: u64 = 1800;
     const LEVEL: &'static str = "fault_enumeration";
     fn plan(tier: Tier) -> Plan {
         match tier {
